@@ -180,7 +180,35 @@ macro_rules! routes_kind {
     }};
 }
 
+/// the owned percent-string of the four component kinds that have one hands over the text as it is
+fn routes_pct(kind: &str, b: &[u8]) -> Option<&'static str> {
+    use iref::{iri, uri};
+    let s = std::str::from_utf8(b).ok();
+    let ok = match kind {
+        "uriUserInfo" => uri::UserInfo::new(b).ok().map(|v| v.to_owned().into_pct_string().as_bytes() == b),
+        "uriHost" => uri::Host::new(b).ok().map(|v| v.to_owned().into_pct_string().as_bytes() == b),
+        "uriQuery" => uri::Query::new(b).ok().map(|v| v.to_owned().into_pct_string().as_bytes() == b),
+        "uriFragment" => uri::Fragment::new(b).ok().map(|v| v.to_owned().into_pct_string().as_bytes() == b),
+        "iriUserInfo" => s.and_then(|s| iri::UserInfo::new(s).ok()).map(|v| v.to_owned().into_pct_string().as_bytes() == b),
+        "iriHost" => s.and_then(|s| iri::Host::new(s).ok()).map(|v| v.to_owned().into_pct_string().as_bytes() == b),
+        "iriQuery" => s.and_then(|s| iri::Query::new(s).ok()).map(|v| v.to_owned().into_pct_string().as_bytes() == b),
+        "iriFragment" => s.and_then(|s| iri::Fragment::new(s).ok()).map(|v| v.to_owned().into_pct_string().as_bytes() == b),
+        _ => None,
+    };
+    if ok == Some(false) { Some("into_pct_string") } else { None }
+}
+
 pub fn routes(kind: &str, b: &[u8]) -> Option<String> {
+    let r = routes_inner(kind, b);
+    if r.as_deref() == Some("1") {
+        if let Some(bad) = routes_pct(kind, b) {
+            return Some(format!("ROUTES {}", bad));
+        }
+    }
+    r
+}
+
+fn routes_inner(kind: &str, b: &[u8]) -> Option<String> {
     use iref::{iri, uri};
     match kind {
         "uri" => routes_kind!(Uri, UriBuf, |b: &'static [u8], _s| Uri::new(b).ok(), leak(b)),
